@@ -32,7 +32,10 @@ AddrViol(e) == IF e.out.mapped # Covers(table, e.letter.page) THEN {"C13/address
 XlatViol(e) ==
     LET r == e.letter.rid
         \* edge = "end": the descriptor table is placed at the first user address past region r, which no region contains
-        inT == r \in table /\ ~("edge" \in DOMAIN e.letter /\ e.letter.edge = "end")
+        \* the user range of r is translatable iff some region of the table has that user range (pool regions 0 and 4
+        \* may share it: same guest range and size, another file)
+        inT == (\E r2 \in table : pool[r2 + 1].ua = pool[r + 1].ua /\ pool[r2 + 1].size = pool[r + 1].size)
+               /\ ~("edge" \in DOMAIN e.letter /\ e.letter.edge = "end")
         ring == e.barriers[1].rings[e.q + 1] IN
     IF (e.status = "ok") # inT THEN {"C13/translation/address-in-table=" \o Str(inT) \o "/accepted=" \o Str(e.status = "ok")
                                            \o (IF "edge" \in DOMAIN e.letter THEN "/at-region-" \o e.letter.edge ELSE "")}
